@@ -197,6 +197,11 @@ class Facts:
             self.add_ge(-cond[1] - 1)
         elif k == "eq":
             self.add_eq(cond[1])
+        elif k == "ne":
+            if self.prove_ge(cond[1]):
+                self.add_ge(cond[1] - 1)
+            elif self.prove_ge(-cond[1]):
+                self.add_ge(-cond[1] - 1)
         elif k == "and":
             for c in cond[1:]:
                 self.add_cond(c)
